@@ -2126,7 +2126,8 @@ double BW_MidiSequencer::Tick(double s, double granularity)
     if(m_currentPosition.wait < 0.0) // Avoid negative delay value!
         return 0.0;
 
-    return m_currentPosition.wait;
+    // The wait is counted in song time, the caller sleeps in real time
+    return m_currentPosition.wait / m_tempoMultiplier;
 }
 
 
@@ -2207,7 +2208,8 @@ double BW_MidiSequencer::seek(double seconds, const double granularity)
     m_time.delay = m_currentPosition.wait;
 
     m_loopEnabled = loopFlagState;
-    return m_currentPosition.wait;
+    // The wait is counted in song time, the caller sleeps in real time
+    return m_currentPosition.wait / m_tempoMultiplier;
 }
 
 double BW_MidiSequencer::tell()
